@@ -108,7 +108,7 @@ AttrModel(c) ==    \* c = [t1, t2, r1, r2, r3, c1, c2] indices into AttrPool
                                               IN At(PlainRel(nm, [k |-> "this"], <<Ty("alpha")>>), IF i > 12 THEN c.r2 ELSE IF i % 2 = 0 THEN c.r1 ELSE c.t2)]], c.t1) >>),
    conds |-> << At([name |-> "k2", module |-> "", file |-> "", params |-> <<[name |-> "b", ty |-> "TYPE_NAME_STRING", elem |-> ""], [name |-> "a", ty |-> "TYPE_NAME_TIMESTAMP", elem |-> ""], [name |-> "userId", ty |-> "TYPE_NAME_STRING", elem |-> ""],
                                                                               [name |-> "Zone", ty |-> "TYPE_NAME_INT", elem |-> ""], [name |-> "userid", ty |-> "TYPE_NAME_BOOL", elem |-> ""], [name |-> "lim", ty |-> "TYPE_NAME_INT", elem |-> ""], [name |-> "lim2", ty |-> "TYPE_NAME_INT", elem |-> ""], [name |-> "lim10", ty |-> "TYPE_NAME_UINT", elem |-> ""], [name |-> "user_ip", ty |-> "TYPE_NAME_IPADDRESS", elem |-> ""]>>,
-                    expr |-> "a > timestamp(b) &&\n    Zone < 3"], c.c1),
+                    expr |-> "a > timestamp(b) &&\n    Zone % 3 < 2"], c.c1),
                 At([name |-> "k1", module |-> "", file |-> "", params |-> <<[name |-> "ip", ty |-> "TYPE_NAME_IPADDRESS", elem |-> ""]>>, expr |-> "ip.in_cidr(\"10.0.0.0/8\")"], c.c2) >>]
 AttrChoices == [t1 : TypeAttrs, t2 : TypeAttrs, r1 : RelAttrs, r2 : RelAttrs, r3 : RelAttrs, c1 : CondAttrs, c2 : CondAttrs]
 AttrId(c) == ToString(c.t1) \o ToString(c.t2) \o ToString(c.r1) \o ToString(c.r2) \o ToString(c.r3) \o ToString(c.c1) \o ToString(c.c2)
